@@ -34,6 +34,8 @@ import (
 	"math"
 	"os"
 	"path/filepath"
+	"runtime"
+	"runtime/pprof"
 	"sort"
 	"strconv"
 	"strings"
@@ -716,7 +718,10 @@ func recoverImage(img *image, nParts int, nestBudget int, imgRoot string) recRes
 		if err != nil {
 			return
 		}
-		sh.DetachFromCompactor()
+		// no DetachFromCompactor here: every shard of this process has id 1, the compactor's
+		// registry is keyed by id and counts registrations in a WaitGroup; a second
+		// unregistration per open (detach + close) racing with another image's close drives
+		// the counter negative. DisableBackground is enough for a shard that is only read.
 		sh.DisableBackground()
 		sh.FlushIndex()
 		for _, f := range sh.Files(mst) {
@@ -938,8 +943,8 @@ func (ro *reorg) outcomes() (old []string, news [][]string) {
 }
 
 func runHistory(c *hx.Ctx, r *hx.Rng, idx int, workers int, thorough bool) error {
-	root := engx.ScratchDir("c03")
-	imgRoot := engx.ScratchDir("c03img")
+	root := scratchDir("c03")
+	imgRoot := scratchDir("c03img")
 	defer os.RemoveAll(root)
 	defer os.RemoveAll(imgRoot)
 	k := knobs{
@@ -1342,11 +1347,42 @@ func Run(c *hx.Ctx) error {
 	c.Stats.Rule = "random histories on a real shard (3 series, late data so that ordered and out-of-order files exist, sparse rows, different field subsets per batch, overwrites, sometimes long runs and small segments; 1 or 2 WAL partitions; unflushed writes in the WAL) with level compaction, full compaction, merge of out-of-order files into ordered ones, fast and streaming self-merge, under random planner knobs (group sizes, streaming / non-streaming compaction, self-merge levels) and sometimes with every data file referenced (old files renamed to .init instead of removed); a crash image (copy of the shard directory) after every file-system mutation under data/ during the reorganisation plus torn variants of the compact-log write; every image is recovered by reopening a shard on it; thorough tier: second-level images during that recovery, recovered again. A case = one image, keyed by (shape of the reorganisation, image kind, step index, log state); non-trivial when the crash is strictly inside the replace protocol (after the log write, before the last step) or inside a recovery"
 	fileops.SetVerifObserver(theMux)
 	defer fileops.SetVerifObserver(nil)
+	if pf := c.Arg("cpuprofile", ""); pf != "" {
+		if f, e := os.Create(pf); e == nil {
+			pprof.StartCPUProfile(f)
+			defer pprof.StopCPUProfile()
+		}
+	}
+	defer scratchCleanup()
 	n := c.Budget(14, 160)
 	r := hx.NewRng(c.Seed)
 	thorough := c.Tier == "thorough"
+	workers := runtime.NumCPU()
+	if workers > 16 {
+		workers = 16
+	}
+	if workers < 4 {
+		workers = 4
+	}
+	// structured part first: several reorganisations in flight at the crash (multi.go)
+	nMulti := 2
+	if thorough {
+		nMulti = 4 + n/10
+	}
+	if v := c.Arg("multi", ""); v != "" {
+		nMulti, _ = strconv.Atoi(v)
+	}
+	rm := hx.NewRng(c.Seed ^ 0x6d756c7469)
+	for i := 0; i < nMulti; i++ {
+		if err := runMultiHistory(c, rm.Fork(), i, workers, thorough); err != nil {
+			return err
+		}
+	}
+	if c.Arg("part", "") == "multi" {
+		return nil
+	}
 	for i := 0; i < n; i++ {
-		if err := runHistory(c, r.Fork(), i, 8, thorough); err != nil {
+		if err := runHistory(c, r.Fork(), i, workers, thorough); err != nil {
 			return err
 		}
 	}
